@@ -270,7 +270,7 @@ func (e *c01Env) c08PartInproc() c01Part {
 		eof := x.In(2) == 1
 		parses := c01ImplParses(in.Data)
 		caseID := fmt.Sprintf("inproc input=%s worktree=%s chunking=%s eof-with-last-read=%v", in.Name, wt, ch, eof)
-		r := vx.Result{Counters: map[string]int64{}, NonTrivial: []string{caseID}, Sample: map[string]interface{}{"delivery": "in-process commands.clean/commands.smudge", "input": in.Name, "bytes": n,
+		r := vx.Result{Evals: 1, Counters: map[string]int64{}, NonTrivial: []string{caseID}, Sample: map[string]interface{}{"delivery": "in-process commands.clean/commands.smudge", "input": in.Name, "bytes": n,
 			"input_parses_as_pointer": parses, "worktree_file": wt.String(), "chunking": ch.String(), "eof_with_last_read": eof, "text": c01Short(in.Data)}}
 		class := c08Class(in, ch)
 		cl := map[string]int64{}
@@ -304,7 +304,7 @@ func (e *c01Env) c08PartInproc() c01Part {
 		sm := "no-smudge"
 		if !parses {
 			// third sentence of the statement: smudging bytes that do not parse as a pointer passes them through
-			r.Evals = 2
+			r.Evals++
 			sobs, sdied, sinc, sterr := c01Inproc(e.pool, c01Req{InputFile: in.File, Path: "f.bin", WT: wt, Ch: ch, EOFLast: eof, NoClean: true, RawSmudge: true})
 			if sinc != "" {
 				r.Inconcl = sinc
@@ -355,7 +355,7 @@ func (e *c01Env) c08PartOneshot() c01Part {
 		ch := chs[x.In(len(chs))]
 		parses := c01ImplParses(in.Data)
 		caseID := fmt.Sprintf("oneshot input=%s worktree=%s chunking=%s", in.Name, wt, ch)
-		r := vx.Result{Counters: map[string]int64{}, NonTrivial: []string{caseID}, Sample: map[string]interface{}{"delivery": "real `git-lfs clean -- f.bin` / `git-lfs smudge -- f.bin`, stdin = kernel pipe written chunk by chunk (next chunk after FIONREAD==0)",
+		r := vx.Result{Evals: 1, Counters: map[string]int64{}, NonTrivial: []string{caseID}, Sample: map[string]interface{}{"delivery": "real `git-lfs clean -- f.bin` / `git-lfs smudge -- f.bin`, stdin = kernel pipe written chunk by chunk (next chunk after FIONREAD==0)",
 			"input": in.Name, "bytes": n, "input_parses_as_pointer": parses, "worktree_file": wt.String(), "chunking": ch.String()}}
 		class := c08Class(in, ch)
 		cl := map[string]int64{}
@@ -387,7 +387,7 @@ func (e *c01Env) c08PartOneshot() c01Part {
 		}
 		sm := "no-smudge"
 		if !parses {
-			r.Evals = 2
+			r.Evals++
 			sr := c01RunGated(w, repo, nil, []string{bin, "smudge", "--", "f.bin"}, in.Data, ch.cutsFor(n))
 			if sr.Inconcl != "" || sr.ExecFail != "" {
 				r.Inconcl = "smudge: " + sr.Inconcl + sr.ExecFail
@@ -424,7 +424,7 @@ func (e *c01Env) c08PartFilterProcess() c01Part {
 		pk := pks[x.In(len(pks))]
 		parses := c01ImplParses(in.Data)
 		caseID := fmt.Sprintf("filter-process input=%s worktree=%s packets=%s", in.Name, wt, pk.name)
-		r := vx.Result{Counters: map[string]int64{}, NonTrivial: []string{caseID}, Sample: map[string]interface{}{"delivery": "real `git-lfs filter-process`, own pkt-line client", "input": in.Name, "bytes": n,
+		r := vx.Result{Evals: 1, Counters: map[string]int64{}, NonTrivial: []string{caseID}, Sample: map[string]interface{}{"delivery": "real `git-lfs filter-process`, own pkt-line client", "input": in.Name, "bytes": n,
 			"input_parses_as_pointer": parses, "worktree_file": wt.String(), "packet_payload_sizes": pk.name}}
 		class := c08Class(in, c01Chunking{})
 		cl := map[string]int64{}
@@ -470,7 +470,7 @@ func (e *c01Env) c08PartFilterProcess() c01Part {
 		}
 		sm := "no-smudge"
 		if rerr == nil && !parses {
-			r.Evals = 2
+			r.Evals++
 			var sf *c01Fail
 			cl["filter-process-answers-success"]++
 			if serr != nil || sstatus != "success" {
@@ -506,7 +506,7 @@ func (e *c01Env) c08PartGit() c01Part {
 			mode = "filter-process"
 		}
 		caseID := fmt.Sprintf("git input=%s mode=%s action=%s", in.Name, mode, act)
-		r := vx.Result{Counters: map[string]int64{}, NonTrivial: []string{caseID}, Sample: map[string]interface{}{"delivery": "real git 2.39 driving the filters", "input": in.Name, "bytes": n, "input_parses_as_pointer": parses, "filter_mode": mode, "action": act}}
+		r := vx.Result{Evals: 1, Counters: map[string]int64{}, NonTrivial: []string{caseID}, Sample: map[string]interface{}{"delivery": "real git 2.39 driving the filters", "input": in.Name, "bytes": n, "input_parses_as_pointer": parses, "filter_mode": mode, "action": act}}
 		class := c08Class(in, c01Chunking{})
 		cl := map[string]int64{}
 		defer func() {
@@ -558,7 +558,7 @@ func (e *c01Env) c08PartGit() c01Part {
 		sm := "no-smudge"
 		if !parses && act == "git add" {
 			// a blob holding exactly these bytes under an lfs path, checked out through the smudge filter
-			r.Evals = 2
+			r.Evals++
 			id := strings.TrimSpace(w.RunIn(repo, in.Data, nil, "git", "hash-object", "-w", "--no-filters", "--stdin").Out)
 			rc := w.Git(repo, "cat-file", "--filters", "--path=f.bin", id)
 			if rc.TimedOut {
@@ -609,7 +609,7 @@ func (e *c01Env) c08PartSkipSmudge() c01Part {
 			mode = "filter-process"
 		}
 		caseID := fmt.Sprintf("skipsmudge op=%q variant=%s mode=%s", op, variant, mode)
-		r := vx.Result{Counters: map[string]int64{}, NonTrivial: []string{caseID}, Sample: map[string]interface{}{"delivery": "GIT_LFS_SKIP_SMUDGE=1 git clone, then git " + op, "variant": variant, "filter_mode": mode, "lfs_files": len(files)}}
+		r := vx.Result{Evals: 1, Counters: map[string]int64{}, NonTrivial: []string{caseID}, Sample: map[string]interface{}{"delivery": "GIT_LFS_SKIP_SMUDGE=1 git clone, then git " + op, "variant": variant, "filter_mode": mode, "lfs_files": len(files)}}
 		cl := map[string]int64{}
 		defer func() {
 			for k, v := range cl {
